@@ -239,6 +239,21 @@ class SDecStr(SStr):
                 return SChar(self.i + 48)
         raise EngineLimit("indexing a decimal rendering")
 
+    def rstrip(self, chars=None):
+        if chars is None or any(c.isdigit() or c == '-' for c in chars):
+            raise EngineLimit("rstrip of digits on a decimal rendering")
+        return SDecStr(self.i, self.suffix.rstrip(chars))
+
+    def endswith(self, x):
+        if self.suffix and isinstance(x, str) and len(x) <= len(self.suffix):
+            return self.suffix.endswith(x)
+        if not self.suffix and isinstance(x, str) and x and not x[-1].isdigit():
+            return False
+        raise EngineLimit("endswith on a decimal rendering")
+
+    def isdigit(self):
+        return self.suffix == '' and bool(self.i >= 0)
+
     def __eq__(self, o):
         if isinstance(o, SDecStr):
             if self.suffix != o.suffix:
